@@ -72,11 +72,14 @@ package html
 //@   ensures[F,C09] @tmpl: l.hasTmpl && !old(l.hasTmpl) ==> len(l.tmplBegin) > 0
 //@   ensures[F,C09] @intag: l.inTag == old(l.inTag)
 //@   loop * candidate[F] l.hasTmpl && !old(l.hasTmpl) ==> len(l.tmplBegin) > 0
+//@   requires[F] !l.hasTmpl
+//@   loop * candidate[F] len(l.tmplBegin) == 0 ==> !l.hasTmpl
 //@   ensures[T]  sameMem(result, l.r.buf[old(l.r.start):l.r.pos]) && cap(result) == len(result)
 //@   ensures[T]  l.text == old(l.text) || within(l.text, result)
 //@   ensures[T,C02] @frame: lowerEditIn(l, hOff(l, l.text), hOff(l, l.text) + len(l.text))
 //@   loop * candidate[T] sameBytesExcept(0, 0)
 //@   loop * candidate[T] lowerEdit(l)
+//@   loop * candidate[T] l.attrVal == nil || within(l.attrVal, l.r.buf[l.r.start:l.r.pos])
 //@   requires[S] !isHTMLWS(l.r.buf[l.r.pos]) && l.r.buf[l.r.pos] != '>' && l.r.pos < len(l.r.buf)-1
 //@   requires[S] l.r.buf[l.r.pos] == '/' ==> l.r.buf[l.r.pos+1] != '>'
 //@   ensures[S]  l.r.start == l.r.pos && l.r.pos > old(l.r.pos)
